@@ -1,0 +1,44 @@
+//go:build verif
+
+// Contracts for the deductive verifier in /verif (govc). Comment-only: this file declares nothing and is
+// compiled only under the build tag `verif`. Syntax: see /verif/DESIGN.md §2.5.
+
+package state
+
+//@ file kvs.go
+
+//@ pure idxVal(t string) uint64 = ite(T_index(t) == nil, 0, T_index(t).Value)
+
+//@ func insertKVTxn
+//@ props C03 C06
+//@ results err
+//@ requires entry != nil
+//@ ensures[stored] err == nil ==> T_kvs(entry.Key) == entry
+//@ ensures[frame-keys] err == nil ==> forall k string :: k != entry.Key ==> T_kvs(k) == old(T_kvs(k))
+//@ ensures[index-set] err == nil && !updateMax ==> idxVal("kvs") == entry.ModifyIndex
+//@ ensures[index-max] err == nil && updateMax ==> idxVal("kvs") == ite(old(idxVal("kvs")) >= entry.ModifyIndex, old(idxVal("kvs")), entry.ModifyIndex)
+//@ modifies T.kvs, T.index
+
+//@ func kvsSetTxn
+//@ props C03 C06
+//@ results err
+//@ requires entry != nil
+//@ ensures[noop-keeps-index] err == nil && old(T_kvs(entry.Key)) != nil && old(T_kvs(entry.Key).LockIndex) == old(entry.LockIndex) && old(T_kvs(entry.Key).Flags) == old(entry.Flags) && eq(old(T_kvs(entry.Key).Value), old(entry.Value)) && (updateSession ==> old(T_kvs(entry.Key).Session) == old(entry.Session)) ==>
+//@      (forall k string :: T_kvs(k) == old(T_kvs(k))) && idxVal("kvs") == old(idxVal("kvs")) && entry.ModifyIndex == old(T_kvs(entry.Key).ModifyIndex) && T_kvs(entry.Key).ModifyIndex == old(T_kvs(entry.Key).ModifyIndex)
+//@ ensures[write-stores] err == nil && !(old(T_kvs(entry.Key)) != nil && old(T_kvs(entry.Key).LockIndex) == old(entry.LockIndex) && old(T_kvs(entry.Key).Flags) == old(entry.Flags) && eq(old(T_kvs(entry.Key).Value), old(entry.Value)) && (updateSession ==> old(T_kvs(entry.Key).Session) == old(entry.Session))) ==>
+//@      T_kvs(entry.Key) == entry && entry.ModifyIndex == idx && idxVal("kvs") == idx
+//@ ensures[create-index] err == nil ==> entry.CreateIndex == ite(old(T_kvs(entry.Key)) == nil, idx, old(T_kvs(entry.Key).CreateIndex))
+//@ ensures[session-kept] err == nil && !updateSession ==> entry.Session == ite(old(T_kvs(entry.Key)) == nil, "", old(T_kvs(entry.Key).Session))
+//@ ensures[session-set] err == nil && updateSession ==> entry.Session == old(entry.Session)
+//@ ensures[content-kept] entry.Key == old(entry.Key) && eq(entry.Value, old(entry.Value)) && entry.Flags == old(entry.Flags) && entry.LockIndex == old(entry.LockIndex)
+//@ ensures[frame-keys] err == nil ==> forall k string :: k != entry.Key ==> T_kvs(k) == old(T_kvs(k))
+//@ modifies entry.CreateIndex, entry.ModifyIndex, entry.Session, T.kvs, T.index
+
+//@ func kvsSetCASTxn
+//@ props C03 C10
+//@ results ok, err
+//@ requires entry != nil
+//@ ensures[cas-honest] err == nil ==> (ok <==> ((old(entry.ModifyIndex) == 0 && old(T_kvs(entry.Key)) == nil) || (old(entry.ModifyIndex) != 0 && old(T_kvs(entry.Key)) != nil && old(T_kvs(entry.Key).ModifyIndex) == old(entry.ModifyIndex))))
+//@ ensures[fail-unchanged] err == nil && !ok ==> (forall k string :: T_kvs(k) == old(T_kvs(k))) && idxVal("kvs") == old(idxVal("kvs")) && entry.ModifyIndex == old(entry.ModifyIndex)
+//@ ensures[err-not-ok] err != nil ==> !ok
+//@ modifies entry.CreateIndex, entry.ModifyIndex, entry.Session, T.kvs, T.index
